@@ -22,7 +22,8 @@ JUNK_TEXTS = ['this is not a Manifest\n', 'DATA\n', 'FOO bar 1\n',
 def prior_state(draw, allow_none=True, lies=True, conflicts=True,
                 junk=True, hidden=True, dir_links=True, max_dirs=4,
                 max_files=7, sub_prob=(1, 2), ignores=True, dist=True,
-                timestamp=True, second_manifest=True, odd_spellings=True):
+                timestamp=True, second_manifest=True, odd_spellings=True,
+                dual_listed=False, root_junk=False):
     """Tree + arbitrary prior Manifest state.
     Returns {'tree', 'manifests', 'pre_ops', 'tags', 'mode'}."""
     spec = draw(treegen.tree_spec(max_dirs=max_dirs, max_files=max_files,
@@ -58,6 +59,11 @@ def prior_state(draw, allow_none=True, lies=True, conflicts=True,
         if draw(st.integers(0, 5)) == 0:
             m['registered'] = False
             tags.append('unregistered-manifest')
+    if dual_listed and len(manifests) > 1 and draw(st.integers(0, 9)) == 0:
+        m = manifests[draw(st.integers(1, len(manifests) - 1))]
+        if m.get('registered', True):
+            m['also_data'] = draw(st.sampled_from(['before', 'after']))
+            tags.append('manifest-also-listed-as-data:' + m['also_data'])
     rendered = layout.render(lay)
     pre_ops = []
     # stale state: edit files after the Manifests were written
@@ -91,6 +97,19 @@ def prior_state(draw, allow_none=True, lies=True, conflicts=True,
                                 'c': draw(st.sampled_from(JUNK_TEXTS)),
                                 'm': BASE_MTIME})
                 tags.append('junk-manifest')
+    if root_junk and draw(st.integers(0, 11)) == 0:
+        # a stray file in the top directory that carries the name of a
+        # compressed variant of the top-level Manifest
+        name = draw(st.sampled_from(['Manifest.gz', 'Manifest.bz2',
+                                     'Manifest.xz']))
+        taken = {n['p'] for n in spec['nodes']} | {m['p'] for m in rendered}
+        if not any(t.startswith('Manifest.') and '/' not in t and t != name
+                   and t.split('.')[-1] in ('gz', 'bz2', 'lzma', 'xz')
+                   for t in taken) and name not in taken:
+            pre_ops.append({'op': 'add', 'p': name, 'latin': True,
+                            'c': draw(st.sampled_from(JUNK_TEXTS)),
+                            'm': BASE_MTIME})
+            tags.append('root-level-manifest-variant')
     return {'tree': spec, 'manifests': rendered, 'pre_ops': pre_ops,
             'tags': sorted(set(tags)), 'mode': mode,
             'ignores': [e['path'] for m in manifests for e in m['entries']
